@@ -792,6 +792,9 @@ func (cs *Contracts) parseContractText(pkgPath, file string, text string, baseLi
 				if first == "assume" && strings.HasSuffix(strings.TrimSpace(rest), " at unwind") {
 					rest = strings.TrimSuffix(strings.TrimSpace(rest), " at unwind") + " before \"$unwind\""
 				}
+				if first == "assume" && strings.HasSuffix(rest, " at exit") {
+					rest = strings.TrimSuffix(rest, " at exit") + " after \"$exit\""
+				}
 				if first == "assume" && (strings.Contains(rest, " after \"") || strings.Contains(rest, " before \"")) {
 					tags, body := parseTags(rest)
 					idx, before := strings.LastIndex(body, " after \""), false
